@@ -248,6 +248,10 @@ def execute_enum(record, trace=False):
             if kind == "step":
                 return
             capture("%s %s" % (kind, detail))
+            if kind == "rename" and ctx["phase"] == "commit" and TOCFILE.match(detail.split(">")[-1].rsplit("/", 1)[-1]):
+                # from here to the return of commit() both TOCs may exist and the clean-up is
+                # under way: the window where "old or new" is decided by what recovery picks
+                ctx["phase"] = "commit_post_rename"
 
         skip_tx = record.get("capture_from_tx", 0)
 
@@ -349,7 +353,8 @@ def execute_enum(record, trace=False):
     mx = crash.get("max_states", 40)
     if total > mx:
         srng = random.Random("%s/sample" % record["seed"])
-        weights = [(200.0 if c[7] == "commit_failed" else 30.0 if c[7] == "commit_error_path" else 3.0 if c[7] in ("commit", "cancel") else 1.0)
+        weights = [(200.0 if c[7] == "commit_failed" else 30.0 if c[7] == "commit_error_path" else 12.0 if c[7] == "commit_post_rename"
+                    else 3.0 if c[7] in ("commit", "cancel") else 1.0)
                    for c in captured]
         chosen = set()
         idx = list(range(total))
